@@ -35,7 +35,7 @@ try:
     shutil.copytree("/repo/pyrex", os.path.join(scratch, "pyrex"), symlinks=True)
     ap = run("cd %s && patch -p1 < %s" % (scratch, os.path.join(out, "patch.diff")))
     res["patch_applies_to_repo_head"] = ap.returncode == 0
-    env = dict(os.environ, PYREX_REPO=scratch)
+    env = dict(os.environ, PYREX_REPO=scratch, PYVC_EVIDENCE_DIR=os.path.join(scratch, '_evidence'))
     c = subprocess.run(["/verif/check", pid], env=env, capture_output=True, text=True)
     lines = [l for l in (c.stdout + c.stderr).splitlines() if l.startswith(("VIOLATION", "SUMMARY", "UNDECIDED", "ENGINE", "KNOWN"))]
     res["check_exit"] = c.returncode
